@@ -249,3 +249,87 @@ func c01rowseqPhase(r *Run, rng *Rng, n int) {
 		c01rowseq(r, b.String())
 	}
 }
+
+// ---- merged ranges: the STORED list (not GetMergeCells, which shows a normalised copy)
+
+type c01rect [4]int
+
+func c01storedMerges(f *xl.File, sheet string) ([]c01rect, bool) {
+	d := xl.VerifDumpSheet(f, sheet)
+	i := strings.LastIndex(d, " M=")
+	j := strings.LastIndex(d, " dense=")
+	if i < 0 || j < i {
+		return nil, false
+	}
+	var out []c01rect
+	for _, ref := range strings.Split(d[i+3:j], ",") {
+		if ref == "" || ref == "nil" {
+			continue
+		}
+		p := strings.Split(ref, ":")
+		a, b, e1 := xl.CellNameToCoordinates(p[0])
+		c, e, e2 := xl.CellNameToCoordinates(p[len(p)-1])
+		if e1 != nil || e2 != nil {
+			return nil, false
+		}
+		out = append(out, c01rect{min(a, c), min(b, e), max(a, c), max(b, e)})
+	}
+	return out, true
+}
+
+func c01rectsWire(l []c01rect) string {
+	var b strings.Builder
+	b.WriteString(strconv.Itoa(len(l)))
+	for _, m := range l {
+		fmt.Fprintf(&b, " %d %d %d %d", m[0], m[1], m[2], m[3])
+	}
+	return b.String()
+}
+
+func c01rectsOverlap(l []c01rect) bool {
+	for i := range l {
+		for j := i + 1; j < len(l); j++ {
+			a, b := l[i], l[j]
+			if a[0] <= b[2] && b[0] <= a[2] && a[1] <= b[3] && b[1] <= a[3] {
+				return true
+			}
+		}
+	}
+	return false
+}
+
+func c01anchor(l []c01rect, c, r int) [2]int {
+	for _, m := range l {
+		if m[0] <= c && c <= m[2] && m[1] <= r && r <= m[3] {
+			return [2]int{m[0], m[1]}
+		}
+	}
+	return [2]int{c, r}
+}
+
+const c01mergeSig = "hist:overlapping-merges-normalised-at-save"
+
+// c01mergeWitness: the witness of the open finding (DESIGN: B1:C7 + B5:E5, cell E1).
+func c01mergeWitness(r *Run) {
+	f := xl.NewFile()
+	defer f.Close()
+	_ = f.SetCellStr("Sheet1", "B1", "anchor")
+	_ = f.SetCellStr("Sheet1", "E1", "own")
+	_ = f.MergeCell("Sheet1", "B1", "C7")
+	_ = f.MergeCell("Sheet1", "B5", "E5")
+	before, _ := f.GetCellValue("Sheet1", "E1")
+	pre, ok1 := c01storedMerges(f, "Sheet1")
+	g, err := c01save(f, 0)
+	if err != nil || !ok1 {
+		r.Fail("mergewitness:failed", "could not run the merged-range witness", 0, "mergewitness")
+		return
+	}
+	defer g.Close()
+	post, _ := c01storedMerges(g, "Sheet1")
+	ln := r.Op("hmerge "+c01rectsWire(pre), "ok "+c01rectsWire(post))
+	after, _ := g.GetCellValue("Sheet1", "E1")
+	r.Case("mergewitness", true)
+	if before != after {
+		r.Fail(c01mergeSig, fmt.Sprintf("MergeCell(B1:C7); MergeCell(B5:E5): E1 reads %q before the save and %q after save+open (stored ranges %v become %v)", before, after, pre, post), ln, "mergewitness")
+	}
+}
